@@ -77,10 +77,14 @@ struct Acc {
     u64 nspecial   = 0;
     u64 first      = 0;
     u64 n          = 0;
+    ld last_got    = 0;
+    ld last_want   = 0;
     template <typename T>
     void add(u64 bits, T got, ld want)
     {
         ++n;
+        last_got  = static_cast<ld>(got);
+        last_want = want;
         bool sg = special(got);
         bool sw = ref_special<T>(want);
         if (sg || sw) {
@@ -254,7 +258,9 @@ int main()
         std::printf("%s %d max_ulp=%.3f at=%llu special=%llu first_special=", name.c_str(), fmt, acc.max_ulp, acc.at,
             acc.nspecial);
         if (acc.nspecial != 0) { std::printf("%llu", acc.first); } else { std::printf("-"); }
-        std::printf(" n=%llu\n", acc.n);
+        std::printf(" n=%llu", acc.n);
+        if (acc.n == 1) { std::printf(" got=%.12Lg want=%.12Lg", acc.last_got, acc.last_want); }
+        std::printf("\n");
         std::fflush(stdout);
     }
     return 0;
